@@ -5,36 +5,46 @@ import (
 	"fmt"
 	"math/rand"
 	"net"
+	"reflect"
 	"sort"
 	"strconv"
 	"strings"
 	"sync"
 	"time"
+	"unsafe"
 
 	"github.com/fatedier/frp/pkg/auth"
+	"github.com/fatedier/frp/pkg/config"
+	"github.com/fatedier/frp/pkg/config/legacy"
 	"github.com/fatedier/frp/pkg/config/types"
 	v1 "github.com/fatedier/frp/pkg/config/v1"
 	"github.com/fatedier/frp/pkg/msg"
-	plugin "github.com/fatedier/frp/pkg/plugin/server"
 	"github.com/fatedier/frp/pkg/util/verifhook"
-	"github.com/fatedier/frp/pkg/util/vhost"
 	"github.com/fatedier/frp/server"
 	"github.com/fatedier/frp/server/controller"
-	"github.com/fatedier/frp/server/group"
 	"github.com/fatedier/frp/server/ports"
 	"github.com/fatedier/frp/server/proxy"
-	"github.com/fatedier/frp/server/visitor"
 )
 
-// Engine "ports" (property C09, also used by C10): real ports.Manager, real TCPProxy/UDPProxy via
-// real Control.RegisterProxy / CloseProxy on a hand-assembled ResourceController, real sockets.
+// Engine "ports" (property C09, also used by C10): a real server.Service built by server.NewService from
+// a ServerConfig that went through the real configuration path (allowPorts written as struct literal /
+// --allow_ports flag text / TOML / legacy ini, then ServerConfig.Complete); its own ResourceController
+// (port managers, TCPGroupCtl) and proxy.Manager are used by real Controls: real TCPProxy (plain and
+// load-balancing group) / UDPProxy via Control.RegisterProxy / CloseProxy, real sockets.
 //
-// Ports are relative: r stands for base+r; the allowed set is base+1 … base+8 (r = 0 and 9 are outside).
+// Ports are relative: r stands for base+r, the block is base … base+9; a port outside the block is
+// printed as abs<p>.
 //
-//	reset <maxPortsPerClient>
+//	reset <maxPortsPerClient> <form> <entries>
+//	       form: lit | str | toml | ini      entries: s<k> (single base+k) | r<a>-<b> (range), comma separated
+//	seed <form> <entries>                       => tcp=<intervals>;udp=<intervals> | err
+//	       absolute entries ("-" = no allowPorts at all); the same configuration path, then
+//	       ports.NewManager(netType, cfg.ProxyBindAddr, cfg.AllowPorts) as server.NewService calls it;
+//	       the free sets as maximal intervals
 //	reg <sid> <name> <tcp|udp> <req> <grab>     => ok:<r> | err:<class>
 //	       req: "any" (RemotePort 0) | r<k> (base+k) | raw<int> (literal value, e.g. -5, 70000)
 //	       grab=1: another process binds the acquired port between Acquire and the proxy's own Listen
+//	regg <sid> <name> <group> <key> <req> <grab> => ok:<r> | err:<class>     tcp proxy with loadBalancer.group
 //	close <sid> <name>                          => -
 //	fwdexit <name>                              => -      let the udp forwarder goroutine of a closed udp proxy run its deferred pxy.Close()
 //	squat <tcp|udp> <k> / unsquat <tcp|udp> <k> => ok | busy | -
@@ -44,6 +54,7 @@ const portsK = 10
 type portsState struct {
 	base     int
 	cfg      *v1.ServerConfig
+	svr      *server.Service
 	rc       *controller.ResourceController
 	pm       *proxy.Manager
 	ctls     map[int]*server.Control
@@ -74,9 +85,9 @@ func portFree(p int) bool {
 
 func pickBase(rng *rand.Rand) int {
 	for tries := 0; tries < 200; tries++ {
-		b := 20000 + rng.Intn(30000)
+		b := 10000 + rng.Intn(22000) // below the kernel's ephemeral range (32768…): no outgoing connection lands here
 		ok := true
-		for i := 0; i < portsK; i++ {
+		for i := 0; i <= portsK; i++ { // base+portsK is the server's own bind port
 			if !portFree(b + i) {
 				ok = false
 				break
@@ -113,37 +124,156 @@ func portsClose() {
 	for _, s := range st.squats {
 		s.Close()
 	}
+	if st.svr != nil {
+		st.svr.Close()
+	}
 	portSt = nil
 }
 
-func portsReset(maxPorts int) {
+// an unexported pointer field of the Service that server.NewService built (read-only access: the harness
+// must use the very managers NewService made from the configuration)
+func portsSvcField[T any](svr *server.Service, name string) *T {
+	f := reflect.ValueOf(svr).Elem().FieldByName(name)
+	if !f.IsValid() || f.Kind() != reflect.Pointer || f.IsNil() {
+		panic("server.Service has no pointer field " + name)
+	}
+	return (*T)(unsafe.Pointer(f.Pointer()))
+}
+
+// allowPorts entries of an op token: s<n> | r<a>-<b>, comma separated, "-" = none; off is added to every number
+func portsParseEntries(t string, off int) []types.PortsRange {
+	out := []types.PortsRange{}
+	if t == "-" {
+		return out
+	}
+	for _, e := range strings.Split(t, ",") {
+		if e[0] == 's' {
+			out = append(out, types.PortsRange{Single: atoi(e[1:]) + off})
+		} else {
+			ab := strings.SplitN(e[1:], "-", 2)
+			out = append(out, types.PortsRange{Start: atoi(ab[0]) + off, End: atoi(ab[1]) + off})
+		}
+	}
+	return out
+}
+
+// a ServerConfig whose allowPorts were written in the given form and loaded the way frps loads them
+func portsConfig(form string, ents []types.PortsRange) (*v1.ServerConfig, error) {
+	cfg := &v1.ServerConfig{}
+	text := types.PortsRangeSlice(ents).String() // "1000-2000,3000"
+	switch form {
+	case "lit":
+		cfg.AllowPorts = ents
+	case "str": // frps --allow_ports=…
+		if len(ents) > 0 {
+			if err := (&config.PortsRangeSliceFlag{V: &cfg.AllowPorts}).Set(text); err != nil {
+				return nil, err
+			}
+		}
+	case "toml":
+		var sb strings.Builder
+		sb.WriteString("allowPorts = [")
+		for i, e := range ents {
+			if i > 0 {
+				sb.WriteString(", ")
+			}
+			if e.Single > 0 {
+				fmt.Fprintf(&sb, "{ single = %d }", e.Single)
+			} else {
+				fmt.Fprintf(&sb, "{ start = %d, end = %d }", e.Start, e.End)
+			}
+		}
+		sb.WriteString("]\n")
+		if err := config.LoadConfigure([]byte(sb.String()), cfg, true); err != nil {
+			return nil, err
+		}
+	case "ini":
+		src := "[common]\nbind_port = 7000\n"
+		if len(ents) > 0 {
+			src += "allow_ports = " + text + "\n"
+		}
+		lc, err := legacy.UnmarshalServerConfFromIni([]byte(src))
+		if err != nil {
+			return nil, err
+		}
+		cfg = legacy.Convert_ServerCommonConf_To_v1(&lc) // (a malformed allow_ports would be dropped silently here; not generated)
+	default:
+		panic("form " + form)
+	}
+	return cfg, nil
+}
+
+func portsIntervals(l []int) string {
+	sort.Ints(l)
+	var parts []string
+	for i := 0; i < len(l); {
+		j := i
+		for j+1 < len(l) && l[j+1] <= l[j]+1 {
+			j++
+		}
+		if l[i] == l[j] {
+			parts = append(parts, strconv.Itoa(l[i]))
+		} else {
+			parts = append(parts, strconv.Itoa(l[i])+"-"+strconv.Itoa(l[j]))
+		}
+		i = j + 1
+	}
+	return strings.Join(parts, ",")
+}
+
+func portsSeed(form, ents string) string {
+	cfg, err := portsConfig(form, portsParseEntries(ents, 0))
+	if err != nil {
+		return "err"
+	}
+	cfg.Complete()
+	var out []string
+	for _, nt := range []string{"tcp", "udp"} {
+		free, _, _ := ports.NewManager(nt, cfg.ProxyBindAddr, cfg.AllowPorts).VerifDump() // as in server.NewService
+		nonneg := free[:0]
+		for _, p := range free {
+			if p >= 0 {
+				nonneg = append(nonneg, p)
+			}
+		}
+		out = append(out, nt+"="+portsIntervals(nonneg))
+	}
+	return strings.Join(out, ";")
+}
+
+func portsReset(maxPorts int, form string, ents string) {
 	portsClose()
 	st := &portsState{ctls: map[int]*server.Control{}, squats: map[string]interface{ Close() error }{},
 		grabNext: map[string]bool{}, parked: map[string]chan struct{}{}}
-	st.base = pickBase(portsRng)
-	cfg := &v1.ServerConfig{}
-	cfg.Complete()
-	cfg.ProxyBindAddr = "127.0.0.1"
-	cfg.AllowPorts = []types.PortsRange{{Start: st.base + 1, End: st.base + 8}}
-	cfg.MaxPortsPerClient = int64(maxPorts)
-	cfg.UserConnTimeout = 1
-	st.cfg = cfg
-	tcpPM := ports.NewManager("tcp", cfg.ProxyBindAddr, cfg.AllowPorts)
-	routers := vhost.NewRouters()
-	st.rc = &controller.ResourceController{
-		VisitorManager:   visitor.NewManager(),
-		TCPPortManager:   tcpPM,
-		UDPPortManager:   ports.NewManager("udp", cfg.ProxyBindAddr, cfg.AllowPorts),
-		TCPGroupCtl:      group.NewTCPGroupCtl(tcpPM),
-		HTTPGroupCtl:     group.NewHTTPGroupController(routers),
-		HTTPReverseProxy: vhost.NewHTTPReverseProxy(vhost.HTTPReverseProxyOptions{}, routers),
-		PluginManager:    plugin.NewManager(),
+	for attempt := 0; ; attempt++ {
+		st.base = pickBase(portsRng)
+		cfg, err := portsConfig(form, portsParseEntries(ents, st.base))
+		if err != nil {
+			panic("reset: allowPorts not loadable: " + err.Error())
+		}
+		cfg.BindAddr = "127.0.0.1"
+		cfg.BindPort = st.base + portsK
+		cfg.MaxPortsPerClient = int64(maxPorts)
+		cfg.UserConnTimeout = 1
+		// a certificate from files: without one NewService generates an RSA key pair (~0.1 s of CPU per reset)
+		cfg.Transport.TLS.CertFile, cfg.Transport.TLS.KeyFile = siteCert()
+		cfg.Complete() // ProxyBindAddr = BindAddr
+		svr, err := server.NewService(cfg)
+		if err != nil {
+			if attempt < 5 {
+				continue // the bind port was taken meanwhile
+			}
+			panic("reset: NewService: " + err.Error())
+		}
+		st.cfg, st.svr = cfg, svr
+		break
 	}
-	st.pm = proxy.NewManager()
+	st.rc = portsSvcField[controller.ResourceController](st.svr, "rc")
+	st.pm = portsSvcField[proxy.Manager](st.svr, "pxyManager")
 	portSt = st
 	verifhook.Set(func(point string, keys []string) {
 		switch point {
-		case "tcp.run.acquired", "udp.run.acquired":
+		case "tcp.run.acquired", "udp.run.acquired", "tcpgroup.listen.acquired":
 			st.mu.Lock()
 			g := st.grabNext[keys[0]]
 			delete(st.grabNext, keys[0])
@@ -151,6 +281,9 @@ func portsReset(maxPorts int) {
 			if g {
 				// another process takes the port the proxy has just acquired
 				proto := strings.SplitN(point, ".", 2)[0]
+				if proto == "tcpgroup" {
+					proto = "tcp"
+				}
 				_, used, _ := st.mgr(proto).VerifDump()
 				for p, n := range used {
 					if n == keys[0] {
@@ -237,6 +370,10 @@ func classifyRegErr(err error) string {
 		return "exists"
 	case strings.Contains(s, "address already in use"), strings.Contains(s, "bind:"):
 		return "listen"
+	case strings.Contains(s, "group should have same remote port"):
+		return "grpport"
+	case strings.Contains(s, "group auth failed"):
+		return "grpauth"
 	}
 	return "other:" + hx(s)
 }
@@ -250,6 +387,14 @@ func (st *portsState) parseReq(t string) int {
 	default:
 		return st.base + atoi(t[1:])
 	}
+}
+
+// block-relative name of a port; abs<p> outside the block
+func (st *portsState) rel(p int) string {
+	if p >= st.base && p < st.base+portsK {
+		return strconv.Itoa(p - st.base)
+	}
+	return "abs" + strconv.Itoa(p)
 }
 
 func (st *portsState) osBound(proto string) []int {
@@ -281,12 +426,20 @@ func (st *portsState) view() string {
 	for _, proto := range []string{"tcp", "udp"} {
 		free, used, _ := st.mgr(proto).VerifDump()
 		fs := []string{}
+		out := 0
 		for _, p := range free {
-			fs = append(fs, strconv.Itoa(p-st.base))
+			if p >= st.base && p < st.base+portsK {
+				fs = append(fs, strconv.Itoa(p-st.base))
+			} else {
+				out++
+			}
+		}
+		if out > 0 {
+			fs = append(fs, "out"+strconv.Itoa(out)) // free ports outside the block
 		}
 		us := []string{}
 		for p, n := range used {
-			us = append(us, fmt.Sprintf("%d=%s", p-st.base, n))
+			us = append(us, fmt.Sprintf("%s=%s", st.rel(p), n))
 		}
 		sort.Strings(us)
 		bs := []string{}
@@ -300,20 +453,30 @@ func (st *portsState) view() string {
 
 func portsExec(tok []string) string {
 	if tok[0] == "reset" {
-		portsReset(atoi(tok[1]))
+		portsReset(atoi(tok[1]), tok[2], tok[3])
 		return "-"
+	}
+	if tok[0] == "seed" {
+		return portsSeed(tok[1], tok[2])
 	}
 	st := portSt
 	switch tok[0] {
-	case "reg":
+	case "reg", "regg":
 		sid, name, proto := atoi(tok[1]), tok[2], tok[3]
-		if tok[5] == "1" {
+		m := &msg.NewProxy{ProxyName: name, ProxyType: proto}
+		grab := tok[5]
+		if tok[0] == "regg" {
+			m.ProxyType, m.Group, m.GroupKey = "tcp", tok[3], tok[4]
+			m.RemotePort, grab = st.parseReq(tok[5]), tok[6]
+		} else {
+			m.RemotePort = st.parseReq(tok[4])
+		}
+		if grab == "1" {
 			st.mu.Lock()
 			st.grabNext[name] = true
 			st.mu.Unlock()
 		}
 		st.grabbed = 0
-		m := &msg.NewProxy{ProxyName: name, ProxyType: proto, RemotePort: st.parseReq(tok[4])}
 		addr, err := st.ctl(sid).RegisterProxy(m)
 		st.mu.Lock()
 		delete(st.grabNext, name)
@@ -321,12 +484,12 @@ func portsExec(tok []string) string {
 		if err != nil {
 			c := classifyRegErr(err)
 			if c == "listen" && st.grabbed != 0 {
-				c += ":" + strconv.Itoa(st.grabbed-st.base) // the port that had been acquired
+				c += ":" + st.rel(st.grabbed) // the port that had been acquired
 			}
 			return "err:" + c
 		}
 		p, _ := strconv.Atoi(strings.TrimPrefix(addr, ":"))
-		return "ok:" + strconv.Itoa(p-st.base)
+		return "ok:" + st.rel(p)
 	case "close":
 		hadUDP := false
 		_, usedBefore, _ := st.rc.UDPPortManager.VerifDump()
@@ -365,7 +528,7 @@ func portsExec(tok []string) string {
 		st.mu.Unlock()
 		if ok {
 			close(ch)
-			time.Sleep(3 * time.Millisecond) // let the deferred Close (a map update under a mutex) finish
+			time.Sleep(10 * time.Millisecond) // let the deferred Close (a map update under a mutex) finish (no event to wait for; generous: a late Release would move the failure to another op on re-execution)
 		}
 		return "-"
 	case "squat":
@@ -390,14 +553,130 @@ func portsExec(tok []string) string {
 	return "bad-op"
 }
 
+// allowPorts entries as a class: 1-5 entries over the universe lo…hi, single ports and ranges; an entry is
+// either independent of its predecessor or derived from it (touching it on either side, overlapping it,
+// contained in it, containing it, equal to it, starting where it starts); the list is left in that order,
+// reversed or shuffled.  reversedOK: now and then a range with start > end (it means no port).
+func portsGenEntries(rng *rand.Rand, lo, hi int, reversedOK bool) string {
+	type ent struct{ a, b int } // a == b && single: single port
+	clamp := func(x int) int {
+		if x < lo {
+			return lo
+		}
+		if x > hi {
+			return hi
+		}
+		return x
+	}
+	span := hi - lo + 1
+	n := 1 + rng.Intn(5)
+	var es []ent
+	var singles []bool
+	for i := 0; i < n; i++ {
+		var a, b int
+		if i > 0 && rng.Intn(2) == 0 {
+			pa, pb := es[i-1].a, es[i-1].b
+			if pa > pb {
+				pa, pb = pb, pa
+			}
+			w := rng.Intn(span/3 + 1)
+			switch rng.Intn(7) {
+			case 0: // touches it from above
+				a, b = pb+1, pb+1+w
+			case 1: // touches it from below
+				a, b = pa-1-w, pa-1
+			case 2: // overlaps its upper end
+				a, b = pa+rng.Intn(pb-pa+1), pb+1+w
+			case 3: // overlaps its lower end
+				a, b = pa-1-w, pa+rng.Intn(pb-pa+1)
+			case 4: // inside it
+				a = pa + rng.Intn(pb-pa+1)
+				b = a + rng.Intn(pb-a+1)
+			case 5: // the same again
+				a, b = pa, pb
+			default: // starts where it starts, reaches further
+				a, b = pa, pb+1+w
+			}
+			a, b = clamp(a), clamp(b)
+			if a > b {
+				a, b = b, a
+			}
+		} else {
+			a = lo + rng.Intn(span)
+			b = a + rng.Intn(span/2+1)
+			b = clamp(b)
+		}
+		single := rng.Intn(5) < 2
+		if single {
+			if rng.Intn(2) == 0 {
+				a = b
+			} else {
+				b = a
+			}
+		} else if reversedOK && a < b && rng.Intn(15) == 0 {
+			a, b = b, a
+		}
+		es = append(es, ent{a, b})
+		singles = append(singles, single)
+	}
+	idx := rng.Perm(n)
+	switch rng.Intn(3) {
+	case 0:
+		for i := range idx {
+			idx[i] = i
+		}
+	case 1:
+		for i := range idx {
+			idx[i] = n - 1 - i
+		}
+	}
+	parts := make([]string, n)
+	for i, j := range idx {
+		if singles[j] {
+			parts[i] = "s" + strconv.Itoa(es[j].a)
+		} else {
+			parts[i] = fmt.Sprintf("r%d-%d", es[j].a, es[j].b)
+		}
+	}
+	return strings.Join(parts, ",")
+}
+
+func portsGenForm(rng *rand.Rand) (form string, reversedOK bool) {
+	form = pick(rng, []string{"lit", "str", "toml", "ini"})
+	return form, form == "lit" || form == "toml"
+}
+
 func portsGen(rng *rand.Rand, n int, emit func(string)) {
 	var live map[string]int // name -> sid
 	var closedUDP []string
+	var grpReq map[string]string // group -> the request its members usually make
+	var closed []string          // names closed since the last reset (they have a reserved port)
+	reqOf := map[string]string{} // name -> the request it was last registered with
 	id := 0
 	reset := func() {
-		emit("reset " + strconv.Itoa(pick(rng, []int{0, 0, 2, 3, 5})))
+		form, rev := portsGenForm(rng)
+		ents := "r1-8" // the plain block, as often as all other shapes together
+		if rng.Intn(2) == 0 {
+			ents = portsGenEntries(rng, 0, portsK-1, rev)
+		}
+		emit(fmt.Sprintf("reset %d %s %s", pick(rng, []int{0, 0, 2, 3, 5}), form, ents))
 		live = map[string]int{}
 		closedUDP = nil
+		closed = nil
+		grpReq = map[string]string{}
+	}
+	seed := func() {
+		form, rev := portsGenForm(rng)
+		switch k := rng.Intn(60); {
+		case k == 0:
+			emit("seed " + form + " -") // no allowPorts: every port
+		case k < 4: // a wide range among the entries
+			w := 1 + rng.Intn(60000)
+			emit(fmt.Sprintf("seed %s %s,r%d-%d", form, portsGenEntries(rng, w, w+40, rev), w+20, w+20+rng.Intn(5000)))
+		default:
+			w := 1 + rng.Intn(65000)
+			emit("seed " + form + " " + portsGenEntries(rng, w, w+rng.Intn(80)+5, rev))
+		}
 	}
 	reset()
 	req := func() string {
@@ -421,8 +700,10 @@ func portsGen(rng *rand.Rand, n int, emit func(string)) {
 	for i := 0; i < n; i++ {
 		k := rng.Intn(100)
 		switch {
-		case k < 2:
+		case k < 3:
 			reset()
+		case k < 10:
+			seed()
 		case k < 42:
 			proto := pick(rng, []string{"tcp", "tcp", "udp"})
 			id++
@@ -436,8 +717,46 @@ func portsGen(rng *rand.Rand, n int, emit func(string)) {
 			if rng.Intn(12) == 0 {
 				grab = "1"
 			}
-			emit(fmt.Sprintf("reg %d %s %s %s %s", sid, name, proto, req(), grab))
+			// a previously closed name comes back, usually asking for a server-chosen port (reserved-port path)
+			back := false
+			if len(closed) > 0 && rng.Intn(5) == 0 {
+				name = pick(rng, closed)
+				proto = map[byte]string{'t': "tcp", 'u': "udp"}[name[0]]
+				back = true
+			}
+			rq := "any"
+			if back && rng.Intn(4) != 0 {
+				if proto == "tcp" && rng.Intn(4) == 0 {
+					emit(fmt.Sprintf("regg %d %s %s k any %s", sid, name, pick(rng, []string{"g1", "g2"}), grab))
+				} else {
+					emit(fmt.Sprintf("reg %d %s %s any %s", sid, name, proto, grab))
+				}
+			} else if proto == "tcp" && rng.Intn(5) < 2 {
+				// member of a load-balancing group: usually what the group's members ask for (server-chosen
+				// port as often as a fixed one), now and then another port / another key
+				g := pick(rng, []string{"g1", "g1", "g2"})
+				r, ok := grpReq[g]
+				if !ok || rng.Intn(8) == 0 {
+					r = req()
+					if rng.Intn(2) == 0 {
+						r = "any"
+					}
+					if !ok {
+						grpReq[g] = r
+					}
+				}
+				key := "k"
+				if rng.Intn(10) == 0 {
+					key = "x"
+				}
+				rq = r
+				emit(fmt.Sprintf("regg %d %s %s %s %s %s", sid, name, g, key, r, grab))
+			} else {
+				rq = req()
+				emit(fmt.Sprintf("reg %d %s %s %s %s", sid, name, proto, rq, grab))
+			}
 			live[name] = sid
+			reqOf[name] = rq
 		case k < 62:
 			ns := names()
 			if len(ns) == 0 {
@@ -451,8 +770,25 @@ func portsGen(rng *rand.Rand, n int, emit func(string)) {
 			emit(fmt.Sprintf("close %d %s", sid, nm))
 			if sid == live[nm] {
 				delete(live, nm)
+				closed = append(closed, nm)
 				if nm[0] == 'u' {
 					closedUDP = append(closedUDP, nm)
+				}
+				// the port a proxy has just given back is asked for again at once, by another proxy and by its
+				// number (for udp: before the old proxy's forwarder goroutine is gone, which then exits)
+				if rq := reqOf[nm]; strings.HasPrefix(rq, "r") && !strings.HasPrefix(rq, "raw") && rng.Intn(3) == 0 {
+					proto := map[byte]string{'t': "tcp", 'u': "udp"}[nm[0]]
+					id++
+					nn := fmt.Sprintf("%s%d", proto[:1], id)
+					nsid := 1 + rng.Intn(3)
+					emit(fmt.Sprintf("reg %d %s %s %s 0", nsid, nn, proto, rq))
+					live[nn] = nsid
+					reqOf[nn] = rq
+					if proto == "udp" {
+						emit("fwdexit " + nm)
+						closedUDP = closedUDP[:len(closedUDP)-1]
+					}
+					emit("view")
 				}
 			}
 		case k < 70:
@@ -471,7 +807,7 @@ func portsGen(rng *rand.Rand, n int, emit func(string)) {
 		}
 	}
 	emit("view")
-	emit("reset 0")
+	emit("reset 0 lit r1-8")
 }
 
 func init() { register(&Engine{Name: "ports", Gen: portsGen, Exec: portsExec}) }
